@@ -409,7 +409,8 @@ pub fn record_transfers(a: &Args, out: &mut TraceOut, heavy: bool) -> Value {
         let mut pg = Page::new(PageId(k as u8), *w, *h);
         if *w > 0 && *h > 0 {
             for _ in 0..50 {
-                pg.set_pixel(rng.gen_range(0..*w), rng.gen_range(0..*h), true);
+                let (x, y) = (rng.gen_range(0..*w), rng.gen_range(0..*h));
+                let _ = catch(|| pg.set_pixel(x, y, true)); // a panic here is C06's finding; the page is just a payload for C09
             }
         }
         let small = Page::new(PageId(0xEE), 12, 8);
